@@ -1,2 +1,34 @@
-Theorem C10_placeholder : True. Proof. exact I. Qed.
-Print Assumptions C10_placeholder.
+(* C10 — the load-file reader rejects what it cannot represent.
+   Load.parse_load_file is the literal model of ParseLoadFile (both dialects),
+   a total function of the file's bytes: every slice index of the Go code is
+   guarded by a length test the model mirrors, so there is no panic site to
+   model; that gmars itself neither panics nor hangs on any input is what the
+   harness checks on every run.  legal88 is the independently written table;
+   line_kind / count_instr (spec/AsmSpec.v) classify the lines of a file. *)
+From GM Require Import Base Text Load Sim Meaning AsmSpec C06Proof C10Proof.
+Open Scope N_scope.
+
+(* an accepted file denotes a well-formed warrior *)
+Theorem C10_accepted_wf :
+  forall cfg s code start, 3 <= c_size cfg ->
+    parse_load_file cfg s = LOk code start ->
+    Forall (wf_instr (c_size cfg)) code /\
+    (0 <= start /\ (start < Z.of_nat (length code) \/ start = 0))%Z /\
+    (c_mode cfg = 0 -> Forall (fun i => legal88 i = true) code).
+Proof. exact load_accepts_wf. Qed.
+Print Assumptions C10_accepted_wf.
+
+(* nothing is skipped silently: the number of instructions read equals the number of
+   instruction-bearing lines (non-blank, non-comment, not a directive) before the end marker *)
+Theorem C10_no_silent_skip :
+  forall cfg s code start,
+    parse_load_file cfg s = LOk code start ->
+    length code = count_instr (c_mode cfg =? 0) (read_lines s []).
+Proof. exact load_no_silent_skip. Qed.
+Print Assumptions C10_no_silent_skip.
+
+(* the reader is a total function: it answers every text with an error or a warrior *)
+Theorem C10_total :
+  forall cfg s, parse_load_file cfg s = LErr \/ exists code start, parse_load_file cfg s = LOk code start.
+Proof. intros cfg s. destruct (parse_load_file cfg s); eauto. Qed.
+Print Assumptions C10_total.
